@@ -603,6 +603,30 @@ PURE_PYTHON = {'mahotas.colors.rgb2gray', 'mahotas.colors.rgb2lab', 'mahotas.col
                'mahotas.features.lbp.count_binary1s', 'mahotas.disk'} - {'mahotas.disk'}
 
 
+def directed_extreme_calls(rng):
+    """valid calls at the corners of the documented domain that random generation hits too rarely: binary and grey
+    morphology on narrow images with elements far wider than the image (every offset on one side leaves the image),
+    in both orientations, C-contiguous (binary fast path) and not"""
+    out = []
+    for fn in ('mahotas.erode', 'mahotas.dilate', 'mahotas.open', 'mahotas.close', 'mahotas.cerode', 'mahotas.cdilate'):
+        if fn not in ENTRIES:
+            continue
+        for tall in (True, False):
+            a, b = rng.randint(6, 11), rng.randint(1, 3)
+            shape = [a, b] if tall else [b, a]
+            wide = 2 * b + rng.choice([3, 5, 7])
+            bs = [rng.choice([1, 3]), wide] if tall else [wide, rng.choice([1, 3])]
+            for dt, lay in (('bool', 'C'), (rng.choice(['bool', 'uint8', 'int16']), rng.choice(['F', 'strided', 'C']))):
+                img = A(dtype=dt, shape=shape, fill='bool' if dt == 'bool' else 'rand', seed=rng.randrange(1 << 30), layout=lay)
+                se = A(dtype=dt, shape=bs, fill='ones', seed=0, layout='C')
+                if fn in ('mahotas.cerode', 'mahotas.cdilate'):
+                    g = A(dtype=dt, shape=shape, fill='bool' if dt == 'bool' else 'rand', seed=rng.randrange(1 << 30), layout='C')
+                    out.append(dict(fn=fn, args=[img, g, se], kw={}))
+                else:
+                    out.append(dict(fn=fn, args=[img, se], kw={}))
+    return out
+
+
 def valid_call(rng, fn=None, **gkw):
     g = G(rng, **gkw)
     fn = fn or rng.choice(sorted(ENTRIES))
